@@ -18,7 +18,14 @@ import (
 	"time"
 )
 
-const VerifDir = "/verif"
+// VerifDir is the framework directory (evidence, replays, known findings);
+// run.sh exports VERIF_DIR so that a snapshot of /verif writes into itself.
+var VerifDir = func() string {
+	if d := os.Getenv("VERIF_DIR"); d != "" {
+		return d
+	}
+	return "/verif"
+}()
 
 // Violation is one failed case.
 type Violation struct {
